@@ -110,7 +110,7 @@ def _run_chunk(names, repo='/repo', jobs=8, harness_timeout=600, total_timeout=7
     cmd += list(extra)
     res['cmd'] = ' '.join(cmd)
     try:
-        p = subprocess.run(cmd, cwd=repo, env=env(), capture_output=True, text=True, timeout=total_timeout, preexec_fn=_limit_memory)
+        p = _run_watched(cmd, repo, total_timeout)
     except subprocess.TimeoutExpired:
         res['reason'] = f'cargo kani timed out after {total_timeout} s'
         res['wall_s'] = time.time() - t0
@@ -178,6 +178,75 @@ def _run_chunk(names, repo='/repo', jobs=8, harness_timeout=600, total_timeout=7
 
 MEM_GB = int(os.environ.get('VERIF_KANI_MEM_GB', '10'))
 CHUNK = int(os.environ.get('VERIF_KANI_CHUNK', '10'))
+
+
+def _descendants(root):
+    out = subprocess.run(['ps', '-eo', 'pid=,ppid=,rss=,comm='], capture_output=True, text=True).stdout
+    rows = []
+    for line in out.split('\n'):
+        f = line.split(None, 3)
+        if len(f) == 4:
+            rows.append((int(f[0]), int(f[1]), int(f[2]), f[3]))
+    kids = {root}
+    changed = True
+    while changed:
+        changed = False
+        for pid, ppid, _rss, _c in rows:
+            if ppid in kids and pid not in kids:
+                kids.add(pid)
+                changed = True
+    return [r for r in rows if r[0] in kids]
+
+
+class _Completed:
+    def __init__(self, rc, out, err):
+        self.returncode, self.stdout, self.stderr = rc, out, err
+
+
+def _run_watched(cmd, cwd, total_timeout):
+    """run cargo kani; a watchdog kills any single cbmc process whose resident set exceeds VERIF_KANI_MEM_GB
+    (its harness is then reported as failed-without-checks = INCONCLUSIVE).  An address-space limit on the
+    whole process tree made kani-driver itself abort ('memory allocation of 256 bytes failed')."""
+    import tempfile
+    import threading
+    fo = tempfile.TemporaryFile(mode='w+')
+    fe = tempfile.TemporaryFile(mode='w+')
+    proc = subprocess.Popen(cmd, cwd=cwd, env=env(), stdout=fo, stderr=fe, text=True)
+    stop = threading.Event()
+    killed = []
+
+    def watch():
+        while not stop.wait(3.0):
+            try:
+                for pid, _ppid, rss_kb, comm in _descendants(proc.pid):
+                    if comm.startswith('cbmc') and rss_kb > MEM_GB * 1024 * 1024:
+                        try:
+                            os.kill(pid, 9)
+                            killed.append(pid)
+                        except OSError:
+                            pass
+            except Exception:
+                pass
+
+    th = threading.Thread(target=watch, daemon=True)
+    th.start()
+    try:
+        proc.wait(timeout=total_timeout)
+    except subprocess.TimeoutExpired:
+        for pid, _pp, _r, _c in _descendants(proc.pid):
+            try:
+                os.kill(pid, 9)
+            except OSError:
+                pass
+        stop.set()
+        raise
+    stop.set()
+    fo.seek(0)
+    fe.seek(0)
+    out, err = fo.read(), fe.read()
+    if killed:
+        err += f'\n[verif] watchdog killed {len(killed)} cbmc process(es) above {MEM_GB} GB resident memory\n'
+    return _Completed(proc.returncode, out, err)
 
 
 def _limit_memory_cex():
